@@ -51,7 +51,7 @@ if sys.argv[1] == "--rerun":
     ids = sorted(x for x in os.listdir(os.path.join(V, "refactors"))
                  if not sys.argv[2:] or any(x.startswith(p) for p in sys.argv[2:]))
     from concurrent.futures import ThreadPoolExecutor
-    with ThreadPoolExecutor(3) as ex:
+    with ThreadPoolExecutor(int(os.environ.get("VERIF_JOBS", "3"))) as ex:
         list(ex.map(evaluate, ids))
     sys.exit(0)
 wt, rid = sys.argv[1], sys.argv[2]
